@@ -94,7 +94,9 @@ def main():
     if not chk.quick:
         # covering-array style rows: random compatible pairs/triples so that every pair of option cases of a sampler appears with high probability
         for sampler, nrows in (("std", 420), ("ins", 180)):
-            tab = [o for o in opts[sampler] if not o[0].endswith("_bad") and o[0] not in ("unknown_kw", "crit_len_mismatch", "crit_check_bad", "base")]
+            # (cases that already are combinations of two options are run on their own only)
+            tab = [o for o in opts[sampler] if not o[0].endswith("_bad") and o[0] not in ("unknown_kw", "crit_len_mismatch", "crit_check_bad", "base")
+                   and not o[0].startswith(("clust_", "uncapped_"))]
             rng = rng_for(chk.seed, "C20rows", sampler)
             made = 0
             tries = 0
